@@ -69,7 +69,17 @@ func WorkerMain(id, tier string) int {
 // ReplayCase runs a single case verbosely in this process and returns its
 // violations.
 func ReplayCase(chk *Check, scopeName string, idx uint64) ([]Violation, *Scope, error) {
-	for _, tier := range []string{"quick", "thorough"} {
+	return ReplayCaseTier(chk, "", scopeName, idx)
+}
+
+// ReplayCaseTier looks the scope up in the given tier first (a scope name can stand for a larger space in the
+// thorough tier), then in the other one.
+func ReplayCaseTier(chk *Check, first, scopeName string, idx uint64) ([]Violation, *Scope, error) {
+	tiers := []string{"quick", "thorough"}
+	if first == "thorough" {
+		tiers = []string{"thorough", "quick"}
+	}
+	for _, tier := range tiers {
 		for _, sc := range chk.Scopes(tier) {
 			if sc.Name == scopeName {
 				if idx >= sc.Size {
